@@ -1,6 +1,6 @@
 (* Unit C01_expr: the expression layer of C01.  Statements only; proofs are in Proofs/ToCP.v. *)
 From Coq Require Import ZArith QArith List Bool.
-From RV Require Import Base.Wire Base.Text Lang.PyAst Lang.PySem Lang.CAst Lang.CSem Lang.ToC Gen.OpTables Proofs.ToCP Proofs.ToCPres.
+From RV Require Import Base.Wire Base.Text Lang.PyAst Lang.PySem Lang.CAst Lang.CSem Lang.ToC Gen.OpTables Proofs.ToCP Proofs.ToCPres Proofs.AtolP.
 Import ListNotations.
 Open Scope Z_scope.
 
@@ -142,3 +142,13 @@ Example C01_expr_nonvacuous_calls :
   expr_guard demo_G demo_rho demo_e2 = true /\ peval demo_rho demo_e2 = Ok (VInt 9) /\ exists c, to_c demo_G demo_e2 = TOk c.
 Proof. exact demo2_nonvacuous. Qed.
 Print Assumptions C01_expr_nonvacuous_calls.
+
+(* String.toInt (atol) reads the number Python's int() reads whenever int() succeeds: the clause atol_ok of
+   expr_guard is implied by the hypothesis peval = Ok of the preservation theorem *)
+Theorem C01_int_str_atol : forall s z, parse_int s = Ok z -> c_atol s = z.
+Proof. exact parse_int_atol. Qed.
+Print Assumptions C01_int_str_atol.
+
+Theorem C01_atol_clause_redundant : forall s z, parse_int s = Ok z -> atol_ok s = true.
+Proof. exact atol_ok_of_parse. Qed.
+Print Assumptions C01_atol_clause_redundant.
